@@ -1,0 +1,26 @@
+//! Verification hooks; empty unless built with `--cfg sourcemap_verif`.
+#![allow(unexpected_cfgs)]
+
+#[cfg(sourcemap_verif)]
+mod hooks {
+    use std::sync::OnceLock;
+
+    type Hook = Box<dyn Fn(u32) + Send + Sync>;
+    static YIELD_HOOK: OnceLock<Hook> = OnceLock::new();
+
+    /// Installs the callback invoked at every yield point (once per process).
+    pub fn set_yield_hook(hook: Hook) -> bool {
+        YIELD_HOOK.set(hook).is_ok()
+    }
+
+    /// Called by instrumented code between two atomic steps.
+    #[inline]
+    pub fn yield_point(point: u32) {
+        if let Some(hook) = YIELD_HOOK.get() {
+            hook(point);
+        }
+    }
+}
+
+#[cfg(sourcemap_verif)]
+pub use self::hooks::*;
